@@ -9,8 +9,10 @@ import (
 	"context"
 	"encoding/json"
 	"errors"
+	"io"
 	"fmt"
 	"net"
+	"net/http"
 	"os"
 	"path/filepath"
 	"sort"
@@ -24,6 +26,7 @@ import (
 	chart "helm.sh/helm/v4/pkg/chart/v2"
 	chartutil "helm.sh/helm/v4/pkg/chart/v2/util"
 	"helm.sh/helm/v4/pkg/engine"
+	"k8s.io/client-go/rest"
 )
 
 type RenderSpec struct {
@@ -118,6 +121,22 @@ func permuteChart(ch *chart.Chart, seed int) {
 }
 
 var resolverCalls atomic.Int64
+
+// directRT answers requests from a simulated API server directly (no scheduler): used by the cluster-connected render.
+type directRT struct {
+	srv *APIServer
+	n   *atomic.Int64
+}
+
+func (d directRT) RoundTrip(req *http.Request) (*http.Response, error) {
+	var body []byte
+	if req.Body != nil {
+		body, _ = io.ReadAll(req.Body)
+		req.Body.Close()
+	}
+	d.n.Add(1)
+	return d.srv.Handle(req.Method, req.URL.Path, req.URL.Query(), req.Header.Get("Content-Type"), body).HTTP(req), nil
+}
 
 func installCountingResolver() func() {
 	old := net.DefaultResolver
@@ -303,6 +322,45 @@ func ExecuteC05(t *testing.T, plan *Plan) *RunResult {
 		for i := 0; i < rs.G; i++ {
 			if !compare("concurrent-dry-run-install", couts[i]) {
 				goto done
+			}
+		}
+	}
+	// (g) render with a cluster connection (what a real install/upgrade or --dry-run=server does): the engine gets a
+	// REST config; the simulated API server is empty, so lookup finds nothing and the output equals the client-only one,
+	// and DNS stays disabled unless enabled
+	if base.Err == "" {
+		mk := func() (*chart.Chart, chartutil.Values, error) {
+			c := BuildChart(&spec)
+			if err := chartutil.ProcessDependencies(c, deepCopyMap(vals)); err != nil {
+				return nil, nil, err
+			}
+			rv, err := chartutil.ToRenderValuesWithSchemaValidation(c, deepCopyMap(vals), chartutil.ReleaseOptions{Name: "rel", Namespace: "ns1", Revision: 1, IsInstall: true}, chartutil.DefaultCapabilities.Copy(), true)
+			return c, rv, err
+		}
+		c1, rv1, e1 := mk()
+		c2, rv2, e2 := mk()
+		if e1 == nil && e2 == nil {
+			var reqs atomic.Int64
+			rcfg := &rest.Config{Host: "http://sim.cluster.local", Transport: directRT{NewAPIServer(time.Now), &reqs}, QPS: -1,
+				ContentConfig: rest.ContentConfig{ContentType: "application/json", AcceptContentTypes: "application/json"}}
+			var plain engine.Engine
+			plain.EnableDNS = rs.DNS
+			ref, rerr := plain.Render(c1, rv1)
+			conn := engine.New(rcfg)
+			conn.EnableDNS = rs.DNS
+			got, gerr := conn.Render(c2, rv2)
+			nRenders++
+			res.Checks++
+			// (a list lookup legitimately returns a list object on a live cluster: only charts without lookup are compared)
+			_, usesLookup := spec.RawFiles["templates/lookup.yaml"]
+			if usesLookup {
+				res.Probes["cluster-connected-lookup-chart"]++
+			} else if (rerr == nil) != (gerr == nil) || (rerr == nil && !mapsEqual(ref, got)) {
+				violate("identical-output", "cluster-connected", fmt.Sprintf("rendering with a connection to an empty cluster differs from the client-only render (err %v vs %v)", gerr, rerr))
+			}
+			res.Probes["cluster-connected-renders"]++
+			if reqs.Load() > 0 {
+				res.Probes["cluster-connected-lookup-requests"]++
 			}
 		}
 	}
